@@ -8,7 +8,7 @@ import json, os
 from . import common
 
 
-MAXREGS = {"MCDispatch_quick.cfg": 2, "MCDispatch_thorough.cfg": 3, "MCDispatch_sim.cfg": 7}
+MAXREGS = {"MCDispatch_names.cfg": 1, "MCDispatch_quick.cfg": 2, "MCDispatch_thorough.cfg": 3, "MCDispatch_sim.cfg": 7}
 
 
 def edge_run(ctx, cfg, what, extra=(), timeout=3600):
@@ -36,6 +36,7 @@ def collect(ctx, s, props):
 def runs(ctx):
     res = [("closure", edge_run(ctx, "MCDispatch_quick.cfg" if ctx.quick() else "MCDispatch_thorough.cfg",
                                 "closure over 3 names (two differing only in case), %s registrations, all bodies; every edge replayed" % ("2" if ctx.quick() else "3")))]
+    res.append(("names", edge_run(ctx, "MCDispatch_names.cfg", "one registration under each of 78 spellings (every letter in upper and lower case), an event under each spelling")))
     n, depth = (150, 14) if ctx.quick() else (3000, 24)
     res.append(("sim", edge_run(ctx, "MCDispatch_sim.cfg", "random histories over 6 names, up to 7 registrations",
                                 extra=["-simulate", "num=%d" % n, "-depth", str(depth), "-seed", str(ctx.seed)])))
